@@ -62,7 +62,7 @@ class AbsReq:
         self.http11 = False
 
 
-def gen_absreq(rng, big=False, bighdr=False):
+def gen_absreq(rng, big=False, bighdr=False, manyvars=False, bigvalue=False):
     r = AbsReq()
     r.method = rng.choice([b"GET", b"POST", b"PUT", b"DELETE", b"X-custom!", b"get"])
     r.script = rng.choice([b"/s", b"/s", b"/a", b"/a", b"/f", b"/f", b""])
@@ -96,6 +96,22 @@ def gen_absreq(rng, big=False, bighdr=False):
             v = words[0] + b"".join(rng.choice([b" ", b"\t", b", ", b",\t", b" \t", b"\t ", b"  "]) + w for w in words[1:])
         v = v.replace(b'"', b"").replace(b"(", b"").replace(b"\\", b"").strip(b" \t")
         r.headers.append((nm, v))
+    if manyvars:
+        # 30..150 CGI variables: string_map grows (total*2 >= size) once, twice, ... ; by-name lookups must still work
+        want = rng.choice([30, 31, 32, 33, 34, 63, 64, 65, 66, 100, 127, 129, 150])
+        i = 0
+        while len(r.headers) < want:
+            nm = rng.choice([b"X-", b"V", b"Accept-", b"k"]) + b"%d" % i + rand_bytes(rng, rng.choice([0, 1, 3]), TOKEN_CHARS)
+            canon = nm.upper().replace(b"-", b"_")
+            i += 1
+            if canon in names:
+                continue
+            names.add(canon)
+            r.headers.append((nm, rand_bytes(rng, rng.choice([0, 1, 2, 9]), TOKEN_CHARS)))
+    if bigvalue:
+        # one variable value of 1025..2000 bytes (string_pool: over-sized allocation while the pool has one page)
+        v = rand_bytes(rng, rng.choice([1025, 1100, 1500, 1990, 2000, 2040]), TOKEN_CHARS)
+        r.headers = [(b"X-Large", v)] + r.headers[:2]
     if bighdr:
         # header section close to (but within) the 16 KiB limits of all three front-ends
         budget = rng.choice([3000, 9000, 15000, 15600])
